@@ -101,7 +101,8 @@ m("accept-add-int-str", ["C03"], ["ACCEPT|add|ok-set"], TC,
 m("accept-purity-pair", ["C04"], ["PURITY-UNIFY|sub_unify|purity-pairs"], TC,
   "                            (Purity::Impure, Purity::Impure) => Purity::Impure,", "                            (Purity::Impure, Purity::Impure) |\n                            (Purity::Pure, Purity::Impure) => Purity::Impure,")
 m("accept-can-assign-call", ["C04"], ["ASSIGNABILITY|can_assign|accept-set", "ASSIGNABILITY|can_assign|reject-set"], TC,
-  "            E::BlobAccess { .. } | E::Index { .. } => {}\n\n            E::Variant { .. }\n            | E::Call { .. }", "            E::BlobAccess { .. } | E::Index { .. } | E::Call { .. } => {}\n\n            E::Variant { .. }")
+  "            E::BlobAccess { .. } => {}\n\n            // Only tuples can be indexed like this, and tuples are immutable.\n            E::Index { .. }\n            | E::Variant { .. }\n            | E::Call { .. }",
+  "            E::BlobAccess { .. } | E::Call { .. } => {}\n\n            // Only tuples can be indexed like this, and tuples are immutable.\n            E::Index { .. }\n            | E::Variant { .. }")
 m("shape-index-out-of-range-ok", ["C05"], ["SHAPE-ACCEPT|constant_index|out-of-range"], TC,
   "                None => err_type_error!(\n                    self,\n                    span,\n                    TypeError::TupleIndexOutOfRange { got: index, length: tys.len() }\n                ),",
   "                None => Ok(()),")
@@ -507,9 +508,9 @@ m("unknown-callee-only-outside-pure", ["C08", "C11", "C12"], ["INFERENCE|TypeChe
   "                if matches!(self.find_type(function), Type::Unknown) && !ctx.inside_pure {\n                    let params")
 m("quotient-back-constraint-dropped", ["C02"], ["VALUE-PATH|expression|Div|quotient-follows-dividend"], TC,
   "                self.add_constraint(a, span, Constraint::DivResOf(b));\n                Ok(())", "                Ok(())")
-m("external-purity-only-for-constants", ["C04"], ["PURITY-UNIFY|outer_statement|external-fn-is-impure"], TC,
-  "                if let Type::Function(args, ret, Purity::Undefined) = self.find_type(ty) {\n                    self.find_node_mut(ty).ty = Type::Function(args, ret, Purity::Impure);",
-  "                if let (true, Type::Function(args, ret, Purity::Undefined)) =\n                    (self.variables[*var].kind.immutable(), self.find_type(ty))\n                {\n                    self.find_node_mut(ty).ty = Type::Function(args, ret, Purity::Impure);")
+m("external-purity-only-for-constants", ["C04"], ["PURITY-UNIFY|outer_statement|external-fn-is-impure", "PURITY-UNIFY|outer_statement|functions-an-external", "PURITY-COPY|outer_statement"], TC,
+  "                            if matches!(purity, Purity::Undefined) {\n                                self.find_node_mut(ty).ty =\n                                    Type::Function(args, ret, Purity::Impure);",
+  "                            if matches!(purity, Purity::Undefined) && self.variables[*var].kind.immutable() {\n                                self.find_node_mut(ty).ty =\n                                    Type::Function(args, ret, Purity::Impure);")
 
 # ---- rounds 11 and 12
 m("tokenizer-text-trimmed", ["C15", "C17"], ["LINE|sylt_parser::tree|tokenizer-gets-the-text-as-read#1"], PPA,
